@@ -497,7 +497,7 @@ def _count_categorical(model, covariate):
     """Gets the number of individuals that has a level of categorical covariate."""
     idcol = model.datainfo.id_column.name
     df = model.dataset.set_index(idcol)
-    allcounts = df[covariate].groupby('ID').value_counts()
+    allcounts = df[covariate].groupby(idcol).value_counts()
     allcounts.name = None  # To avoid collisions when resetting index
     counts = allcounts.reset_index().iloc[:, 1].value_counts()
     counts.sort_index(inplace=True)  # To make deterministic in case of multiple modes
